@@ -96,7 +96,7 @@ def run(ctx):
             ctx.fail("simulation run failed (%s %s) rc=%d (%s):\n%s" % (fam, c, r.rc, r.invariant_violated, r.out[-3000:]))
         return r.emitted("TRACE")
 
-    width = 8 if q else 3
+    width = max(1, len(jobs)) if q else 3
     for i in range(0, len(jobs), width):
         group = jobs[i:i + width]
         with concurrent.futures.ThreadPoolExecutor(max_workers=len(group)) as ex:
